@@ -400,7 +400,7 @@ type c10Pred struct {
 	views      []*c10View // the same objects with their ids
 	err        bool       // the operation is expected to fail
 	unknown    bool       // outside the oracle's domain: no verdict
-	nullTarget bool       // a replacement wrote into an existing field holding null (finding C10/replacement-keeps-target-tag-not-encodable)
+	nullTarget bool       // a replacement wrote into an existing field holding null (former finding C10/replacement-keeps-target-tag-not-encodable)
 	notes      []string
 }
 
@@ -1656,10 +1656,10 @@ func c10CheckTree(run *Run, t c10Tree, out string, cls string, msg string) (viol
 		// the replacement "succeeded" and left a node tagged !!null with a text: ResMap.AsYaml cannot encode it
 		d := "a replacement wrote a text into a scalar that kept its tag; the build output cannot be encoded: " + msg
 		if run != nil {
-			run.Violation(OracleViolation{Law: "written_value_well_formed", Class: "C10/replacement-keeps-target-tag-not-encodable", Detail: d, Replay: t})
+			run.Violation(OracleViolation{Law: "written_value_well_formed", Class: "C10/replacement-output-not-encodable", Detail: d, Replay: t})
 			run.AddEval(string(fp), true)
 		}
-		return true, "C10/replacement-keeps-target-tag-not-encodable: " + d
+		return true, "C10/replacement-output-not-encodable: " + d
 	}
 	if p.unknown {
 		if run != nil {
